@@ -3,6 +3,7 @@ package main
 import (
 	"bufio"
 	"bytes"
+	"context"
 	"encoding/json"
 	"fmt"
 	"io"
@@ -23,7 +24,8 @@ func init() {
 			"complex keys, bad templates) at every position of the Taskfile schema (top level, includes, vars, tasks, every task / cmd / dep / for / " +
 			"requires / precondition / platform / output field); (b) real Taskfiles from /repo/testdata mutated: line terminators replaced by CR, " +
 			"CRLF, NEL, LS, PS, random byte flips, truncation, duplicated lines; (c) task names and requests with regexp metacharacters. Each document " +
-			"goes through Setup, ListTasks, ListTaskNames, FastCompiledTask of every task, GetTask of odd names under recover() and a 5 s bound. " +
+			"goes through Setup, ListTasks, ListTaskNames, FastCompiledTask of every task, GetTask of odd names, and then (documents of the grammar, not the mutated real ones) Run --dry, Run --dry --force --yes, " +
+			"Run --summary and Status of every task, all under recover() and a time bound. " +
 			"non-trivial = any document other than the unmodified corpus file; distinct by document bytes"}
 }
 
@@ -62,6 +64,12 @@ func evalDecodeInProc(d decodeCase) string {
 	if d.Inc != "" {
 		inc, _ := unhex(d.Inc)
 		os.WriteFile(filepath.Join(dir, "inc.yml"), inc, 0o644)
+		// files that exist but cannot be loaded, with names that sort BEFORE Taskfile.yml (the merge walks the
+		// files in sorted order: a vertex left behind by a failed load must not be taken for the root)
+		os.WriteFile(filepath.Join(dir, "Abad.yml"), []byte("version: '3'\ntasks: [\n"), 0o644)
+		os.WriteFile(filepath.Join(dir, "Anover.yml"), []byte("tasks: {it: {cmds: [echo]}}\n"), 0o644)
+		os.WriteFile(filepath.Join(dir, "Acyc.yml"), []byte("version: '3'\nincludes: {back: ./Taskfile.yml}\ntasks: {it: {cmds: [echo]}}\n"), 0o644)
+		os.WriteFile(filepath.Join(dir, "Amiss.yml"), []byte("version: '3'\nincludes: {gone: ./nowhere.yml}\ntasks: {it: {cmds: [echo]}}\n"), 0o644)
 	}
 	res := make(chan string, 1)
 	go func() {
@@ -99,16 +107,66 @@ func evalDecodeInProc(d decodeCase) string {
 				_ = err.Error()
 			}
 		}
+		// run stages: the guards of RunTask / runCommand (platforms, requires, preconditions, prompts, the
+		// command loop with its per-command platforms, defers, for-loops) only see the decoded values when
+		// a task is RUN.  Dry mode keeps commands from executing (`sh:` variables, preconditions and status
+		// commands do run; the shape grammar only writes harmless ones there, so documents mutated from real
+		// Taskfiles are left out); --summary and --status are further readers of the same values.
+		if d.Kind != "mutated" {
+			mk := func(extra ...task.ExecutorOption) *task.Executor {
+				opts := append([]task.ExecutorOption{task.WithDir(dir), task.WithStdout(io.Discard), task.WithStderr(io.Discard),
+					task.WithStdin(strings.NewReader("")), task.WithSilent(true), task.WithTimeout(500 * time.Millisecond), task.WithOffline(true),
+					task.WithTempDir(task.TempDir{Remote: filepath.Join(dir, ".task"), Fingerprint: filepath.Join(dir, ".task")})}, extra...)
+				x := task.NewExecutor(opts...)
+				if x.Setup() != nil {
+					return nil
+				}
+				return x
+			}
+			reqs := append(append([]string{}, names...), d.Req)
+			for _, stage := range []string{"dry", "dry-force", "summary", "status"} {
+				var x *task.Executor
+				switch stage {
+				case "dry":
+					x = mk(task.WithDry(true))
+				case "dry-force":
+					x = mk(task.WithDry(true), task.WithForceAll(true), task.WithAssumeYes(true))
+				case "summary":
+					x = mk(task.WithSummary(true))
+				case "status":
+					x = mk(task.WithDry(true))
+				}
+				if x == nil {
+					break
+				}
+				for _, n := range reqs {
+					ctx, cancel := context.WithTimeout(context.Background(), 800*time.Millisecond)
+					var err error
+					if stage == "status" {
+						err = x.Status(ctx, &task.Call{Task: n})
+					} else {
+						err = x.Run(ctx, &task.Call{Task: n})
+					}
+					cancel()
+					if err != nil {
+						_ = err.Error()
+					}
+				}
+			}
+		}
 		res <- out
 	}()
 	var cls string
 	select {
 	case cls = <-res:
-	case <-time.After(5 * time.Second):
+	case <-time.After(decodeBound):
 		cls = "timeout"
 	}
 	return cls
 }
+
+// bound of one document (all stages); a document with many tasks runs each of them four times
+const decodeBound = 12 * time.Second
 
 // A panic in a goroutine Task itself starts (errgroup in GetTaskList, reader goroutines) cannot be
 // recovered here: it kills the process.  So documents are evaluated in a worker process (this
@@ -193,6 +251,8 @@ var decShapes = []string{
 	"{sh: 'false', msg: 5}", "windows/amd64", "/", "linux/", "a/b/c", "{os: x}", "{taskfile: ./inc.yml}", "{taskfile: }", "{taskfile: ./inc.yml, vars: {A: {}}}",
 	"{taskfile: ./inc.yml, aliases: x}", "{taskfile: ./inc.yml, excludes: [default]}", "{taskfile: ./inc.yml, excludes: [it, default], aliases: [y]}",
 	"{taskfile: ./inc.yml, flatten: true, excludes: [default]}", "{taskfile: ./inc.yml, internal: true, dir: ./nowhere}", "[default]", "[it]", "{taskfile: ./inc.yml, excludes: {a: b}}", "{taskfile: ./inc.yml, flatten: yes, optional: 3}", "{taskfile: ./missing.yml, optional: true}",
+	"{taskfile: ./Abad.yml, optional: true}", "{taskfile: ./Anover.yml, optional: true}", "{taskfile: ./Acyc.yml, optional: true}", "{taskfile: ./Amiss.yml, optional: true}",
+	"{taskfile: ./Abad.yml}", "./Amiss.yml", "{taskfile: ./Acyc.yml, flatten: true, optional: true}",
 	"https://example.invalid/r.git", "https://example.invalid/r.git//Taskfile.yml?ref=main", "git@example.invalid:r.git", "http://127.0.0.1:9/Taskfile.yml", "file:///", "://", "{group: {begin: x}}", "{group: }", "prefixed", "nosuch",
 }
 
@@ -332,6 +392,9 @@ func runDecode(c *Ctx) {
 	emit(decodeCase{Kind: "corpus", Doc: hx("version: '3'\rtasks:\r  t:\r    cmds: {\r"), Note: "decode error in CR file"})
 	emit(decodeCase{Kind: "corpus", Doc: hx("version: '3'\ntasks:\n  'a(': {cmds: [echo]}\n  'x*': {cmds: [echo]}\n"), Req: "a(", Note: "regexp metachar name"})
 	emit(decodeCase{Kind: "corpus", Doc: hx("version: '3'\ntasks:\n  t:\n    sources:\n      - \n"), Note: "nil glob entry"})
+	emit(decodeCase{Kind: "corpus", Doc: hx("version: '3'\ntasks:\n  t:\n    requires: {vars: [A, ~]}\n    cmds: [echo]\n"), Note: "nil requires entry (crashed when the task was run)"})
+	emit(decodeCase{Kind: "corpus", Doc: hx("version: '3'\ntasks:\n  t:\n    platforms: [~]\n    cmds: [echo]\n  u:\n    cmds:\n      - cmd: echo\n        platforms: [~]\n"), Note: "nil platform entry at task and command level (crashed when the task was run)"})
+	emit(decodeCase{Kind: "corpus", Doc: hx("version: '3'\ntasks:\n  t:\n    vars: {X: {sh: 'test ! -e flag && touch flag && echo {{now.UnixNano}}'}}\n    cmds: [{defer: 'echo d2'}, {defer: 'echo d1'}, 'echo body']\n"), Note: "sh: variable that succeeds when the task is compiled and fails when runDeferred evaluates the variables again (its text changes, so the cache does not hold it): crashed with a nil variable set"})
 	emit(decodeCase{Kind: "corpus", Doc: hx("version: '3'\nvars:\n  A: 2024-01-01\ntasks: {t: {cmds: ['echo {{.A}}']}}\n"), Note: "timestamp variable"})
 	emit(decodeCase{Kind: "corpus", Doc: hx("version: '3'\ntasks: {build: {cmds: [echo]}}\n"), Req: strings.Repeat("a", 2500), Note: "very long unknown task name (did-you-mean lookup is cubic in the length)"})
 	emit(decodeCase{Kind: "corpus", Doc: hx("version: '3'\ntasks: {build: {aliases: [b], cmds: [echo]}}\n"), Req: strings.Repeat("build", 400), Note: "very long unknown task name made of a known one"})
